@@ -680,6 +680,18 @@ impl Session {
         true
     }
 
+    /// an entity that exists unmarked is marked now
+    pub fn mark_existing(&mut self, peer: u32, h: u32) -> bool {
+        let Some(e) = self.local_entity(peer, h) else { return false };
+        let w = self.peers[peer as usize].app.world_mut();
+        if w.get_entity(e).is_none() {
+            return false;
+        }
+        w.entity_mut(e).insert(SyncMark);
+        self.trace.push(json!({"ev":"op","op":"mark","peer":peer,"h":h}));
+        true
+    }
+
     pub fn exclude(&mut self, peer: u32, h: u32, ty: Ty, on: bool) -> bool {
         let Some(e) = self.local_entity(peer, h) else { return false };
         let w = self.peers[peer as usize].app.world_mut();
@@ -701,6 +713,7 @@ impl Session {
             Ty::Transform => ex!(Transform),
             Ty::Name => ex!(Name),
             Ty::Visibility => ex!(Visibility),
+            Ty::Skinned => ex!(SkinnedMesh),
             _ => return false,
         }
         self.trace.push(json!({"ev":"op","op":"exclude","peer":peer,"h":h,"ty":ty.name(),"on":on}));
@@ -1105,6 +1118,7 @@ impl Session {
             exc!(Transform, Ty::Transform);
             exc!(Name, Ty::Name);
             exc!(Visibility, Ty::Visibility);
+            exc!(SkinnedMesh, Ty::Skinned);
             ents.push(json!({"uuid": hex(u.as_bytes()), "comps": comps, "parent": parent, "children": children,
                 "excl": excl, "skinned": skinned, "companions": companions, "gt": gt, "local": e.to_bits()}));
         }
